@@ -158,6 +158,32 @@ func preflight(root, src string) error {
 	return nil
 }
 
+var errFlattenRefused = fmt.Errorf("flatten refused at a version with a stored merge conflict")
+
+// storedConflict reports whether reading every stored key of the instance at the version fails with a merge
+// conflict (two unsuperseded values among the parents of a merge): an oracle independent of the request-level model.
+func storedConflict(root, uuid, name string) bool {
+	d, err := datastore.GetDataByUUIDName(dvid.UUID(root), dvid.InstanceName(name))
+	if err != nil {
+		return false
+	}
+	_, v, err := datastore.MatchingUUID(uuid)
+	if err != nil {
+		return false
+	}
+	db, err := datastore.GetOrderedKeyValueDB(d)
+	if err != nil {
+		return false
+	}
+	ctx := datastore.NewVersionedCtx(d, v)
+	lo, hi := storage.MinTKey(storage.TKeyMinClass), storage.MaxTKey(storage.TKeyMaxClass)
+	_, err = db.KeysInRange(ctx, lo, hi)
+	if err == nil {
+		_, err = db.GetRange(ctx, lo, hi)
+	}
+	return err != nil && strings.Contains(err.Error(), "found multiple kv")
+}
+
 // startCopy starts the copy and waits for it.  direct=false: the RPC command (CopyInstance runs in a goroutine of the
 // server).  direct=true: datastore.CopyInstance called synchronously with the same settings, so that a panic becomes
 // a violation instead of the end of the test process.
@@ -1022,6 +1048,12 @@ func checkCopy(c copyCase) (*outcome, error) {
 	}
 	errsBefore, err := startCopy(w.root, w.uuid[v], "src", "dst", c.Flatten, c.Direct)
 	if err != nil {
+		if c.Flatten && strings.Contains(err.Error(), "found multiple kv") && storedConflict(w.root, w.uuid[v], "src") {
+			// the version holds a stored key with two unsuperseded values among the parents of a merge (a key the
+			// request-level conflict model does not track, e.g. one image block written on both branches): every
+			// read of that key refuses, and so does flattening the version — the documented behaviour, not a defect
+			return &outcome{classes: []string{"flatten-refused-at-conflicted-node"}}, nil
+		}
 		return nil, err
 	}
 	cmpNodes := nodes
@@ -1031,6 +1063,9 @@ func checkCopy(c copyCase) (*outcome, error) {
 		mode = "flatten"
 	}
 	judge := func() error {
+		if es := watch.errsSince(errsBefore); len(es) > 0 && c.Flatten && strings.Contains(strings.Join(es, " "), "found multiple kv") && storedConflict(w.root, w.uuid[v], "src") {
+			return errFlattenRefused
+		}
 		if es := watch.errsSince(errsBefore); len(es) > 0 {
 			return stats.Violf("C19/rpc-repo-copy/"+mode+"/error-logged", "copy of a %s instance at node %d: %s; %s", typeNames[c.Type], v, strings.Join(es, " | "), w.describe())
 		}
@@ -1051,8 +1086,14 @@ func checkCopy(c copyCase) (*outcome, error) {
 		return w.compareCopy(after, dst, cmpNodes, mode)
 	}
 	if err := judge(); err != nil {
+		if err == errFlattenRefused {
+			return &outcome{classes: []string{"flatten-refused-at-conflicted-node"}}, nil
+		}
 		deepWait(w.root, "dst")
 		if err := judge(); err != nil {
+			if err == errFlattenRefused {
+				return &outcome{classes: []string{"flatten-refused-at-conflicted-node"}}, nil
+			}
 			return nil, err
 		}
 	}
